@@ -250,3 +250,17 @@ def separable_out_of_place(coordinates):
     out = np.sin(coordinates[0]) * np.cos(coordinates[1])
     out *= 2
     return out
+
+
+def _make_nodes(region, spacing=1.0, pixel_register=False):
+    return np.arange(region[0], region[1], spacing) + (spacing / 2 if pixel_register else 0)
+
+
+def pops_and_loses(region, **kwargs):
+    label = "pixel" if kwargs.pop("pixel_register", False) else "gridline"
+    return _make_nodes(region, **kwargs), label
+
+
+def pops_and_forwards(region, **kwargs):
+    pixel = kwargs.pop("pixel_register", False)
+    return _make_nodes(region, pixel_register=pixel, **kwargs), "pixel" if pixel else "gridline"
